@@ -92,6 +92,7 @@ func c17Str(r *rand.Rand) string {
 	}
 }
 
+var shRawRe = regexp.MustCompile(`"\\u0000RAW(?:[^"\\]|\\.)*\\u0000"`)
 var shSafeOnly = regexp.MustCompile(`^[A-Za-z0-9_]*$`)
 var shNameRe = regexp.MustCompile(`^[A-Za-z_][A-Za-z0-9_]*$`)
 
@@ -249,8 +250,25 @@ type shLeaf struct {
 	text string
 }
 
+// a leaf whose YAML spelling is not its JSON text: typed scalars with shell syntax in their text
+// (explicit core tags), and nulls / booleans in their YAML spellings
+type shRaw struct{ yaml, text string }
+
+var shTyped = []shRaw{
+	{"~", "~"}, {"null", "null"}, {"Null", "Null"}, {"NULL", "NULL"}, {"True", "True"}, {"FALSE", "FALSE"}, {"1.5", "1.5"}, {"-0.0", "-0.0"}, {"0x1F", "0x1F"}, {".inf", ".inf"},
+	{`!!int "80; : > CANARY"`, "80; : > CANARY"}, {`!!int "$(: > CANARY)"`, "$(: > CANARY)"}, {`!!bool "true`+"`: > CANARY`"+`"`, "true`: > CANARY`"},
+	{`!!float "1.5 2"`, "1.5 2"}, {`!!null "~root"`, "~root"}, {`!!int "*"`, "*"}, {`!!str 12`, "12"}, {`!!int "1'2"`, "1'2"}, {`!custom "a b"`, "a b"}, {`!custom "$x"`, "$x"},
+	{"2001-12-14t21:59:43.10-05:00", "2001-12-14t21:59:43.10-05:00"}, {"!!binary aGVsbG8=", "aGVsbG8="},
+}
+
 func c17Doc(r *rand.Rand, depth int, leaves *[]shLeaf) *ref.V {
 	if depth <= 0 || r.IntN(3) == 0 {
+		if r.IntN(5) == 0 {
+			t := shTyped[r.IntN(len(shTyped))]
+			*leaves = append(*leaves, shLeaf{t.text})
+			// smuggled through the JSON printer as a marker string, replaced by the YAML spelling afterwards
+			return ref.StrV("\x00RAW" + t.yaml + "\x00")
+		}
 		var v *ref.V
 		switch r.IntN(8) {
 		case 0:
@@ -359,7 +377,13 @@ func (p c17) runShellVars(w *mon.Worker, r *rand.Rand, dir string, traced bool) 
 		doc = ref.MapV(ref.KV{K: "root", V: doc})
 	}
 	res := mon.Result{Tags: []string{"mode:-o=shell"}}
-	text := doc.JSON() + "\n"
+	text := shRawRe.ReplaceAllStringFunc(doc.JSON(), func(m string) string {
+		var raw string
+		if v, err := ref.ParseJSON(m); err == nil {
+			raw = strings.TrimSuffix(strings.TrimPrefix(v.S, "\x00RAW"), "\x00")
+		}
+		return raw
+	}) + "\n"
 	res.Case = map[string]any{"doc": text}
 	res.Sig = fmt.Sprintf("shell|%x", hashStr(text))
 	docf := filepath.Join(dir, "in.yaml")
